@@ -27,6 +27,11 @@ LEVEL_NOTE = "necessary conditions; run-time binding outcomes follow from them b
 TECHNIQUE = "abstract interpretation of the symbol-table writers and readers (key normal forms), prefix-grammar injectivity, must-dataflow for lookup priority"
 
 
+def _table(t):
+    """the plain mapping behind a symbol table (a CaseInsensitiveDict record, or a plain dict if the code uses one)"""
+    return t.fields["container"] if isinstance(t, Rec) else t
+
+
 def lazy(repo):
     I = eager_interp(repo)
     I.summaries = {"reports::emit_report": emit_report_summary}
@@ -53,7 +58,7 @@ def rule_R1(ck):
             lab = sh.mk(I.module_get("types", "Label"), None, None, "1x" if local else "x", False)
             lab.fields["name"] = NAME
             I.call_method(comp, "compile_label", [lab, sym.var("ADDR", "int"), mk_state(comp)])
-            return list(comp.fields["symbols"].fields["container"].items())
+            return list(_table(comp.fields["symbols"]).items())
         ps = [p for p in I.explore(thunk) if p.kind == "return" and p.value]
         keys = {k for p in ps for k, v in p.value}
         writers[kind] = keys
@@ -70,7 +75,7 @@ def rule_R1(ck):
         tgt.fields["name"] = NAME
         asg = sh.mk(I.module_get("types", "Assignment"), None, None, tgt, sh.xexpr(sym.var("V", "int"), "V"), False)
         I.call_method(comp, "compile_assignment", [asg, mk_state(comp)])
-        return list(comp.fields["symbols"].fields["container"].items())
+        return list(_table(comp.fields["symbols"]).items())
     ps = [p for p in I.explore(thunk_a) if p.kind == "return" and p.value]
     keys = {k for p in ps for k, v in p.value}
     want = sym.op("lower", sym.cat(IP, NAME))
@@ -82,7 +87,7 @@ def rule_R1(ck):
     def thunk_e():
         comp = I.instantiate(I.module_get("compiler", "Compiler"), [], {})
         I.call_method(comp, "declare_external_symbol", [sym.var("LOC", "obj"), NAME, mk_state(comp)])
-        return list(comp.fields["extern_symbols_mapping"].fields["container"].items())
+        return list(_table(comp.fields["extern_symbols_mapping"]).items())
     ps = [p for p in I.explore(thunk_e) if p.kind == "return" and p.value]
     ent = {(k, v[1][1]) for p in ps for k, v in p.value}
     want = (sym.op("lower", NAME), sym.cat(IP, NAME))
@@ -233,10 +238,14 @@ def rule_R3(ck):
     def thunk2():
         del pref[:]
         comp = I2.instantiate(I2.module_get("compiler", "Compiler"), [], {})
-        for nm in ("a.mac", "b.mac", "a.mac"):
+        # linked files go through compile_file, included ones through compile_include: every route needs a fresh prefix
+        for nm, how in (("a.mac", "file"), ("b.mac", "file"), ("a.mac", "file"), ("i.mac", "include"), ("j.mac", "include"), ("c.mac", "file"), ("i.mac", "include")):
             f = Rec(ClassVal("FileStub"))
             f.fields.update(filename=nm, body=None)
-            I2.call_method(comp, "compile_file", [f, 0, {}])
+            if how == "file":
+                I2.call_method(comp, "compile_file", [f, 0, {}])
+            else:
+                I2.call_method(comp, "compile_include", [f, 0])
         m = comp.fields["internal_prefix_to_state"]
         return list(pref), {k: v["filename"] for k, v in m.items()}
     ps = I2.explore(thunk2)
@@ -244,8 +253,11 @@ def rule_R3(ck):
     if len(ps) != 1 or ps[0].kind != "return":
         raise Unknown(f"compile_file: {ps}")
     prefs, mapping = ps[0].value
-    if len({p for p, _ in prefs}) != 3:
-        ck.violation("compiler::Compiler.compile_file", f"file prefixes of three compilations are {[p for p, _ in prefs]}: each compiled file (also a second inclusion of the same file) needs its own", construct="file prefix per compilation")
+    if len(prefs) != 7:
+        raise Unknown(f"compile_file / compile_include: {len(prefs)} blocks compiled for 7 files")
+    if len({p for p, _ in prefs}) != 7:
+        ck.violation("compiler::Compiler.compile_file", f"file prefixes of seven compilations (linked: a b a, included: i j, linked: c, included: i) are {[p for p, _ in prefs]}: each compiled file "
+                                                        "(also a second inclusion of the same file, and the file compiled after an include) needs its own private namespace", construct="file prefix per compilation")
     for p, fname in prefs:
         m = re.search(r"(\d+)", p) if isinstance(p, str) else None
         if not m or mapping.get(int(m.group(1))) != fname:
@@ -277,7 +289,7 @@ def rule_R4(ck):
                     I.call_method(comp, "declare_external_symbol", [sh.symbol(nm), nm, st])
                 errs = [e[2] for e in I.effects if e[0] == "report" and e[1] == "error"][n0:]
                 out.append(errs)
-            table = comp.fields["extern_symbols_mapping" if kind == "export" else "symbols"].fields["container"]
+            table = _table(comp.fields["extern_symbols_mapping" if kind == "export" else "symbols"])
             return out, {k: v[0] for k, v in table.items()}
         return I.explore(thunk)
     for kind, where in (("label", "compiler::Compiler.compile_label"), ("local", "compiler::Compiler.compile_label"), ("assignment", "compiler::Compiler.compile_assignment"),
@@ -339,12 +351,12 @@ def rule_R5(ck):
               "insn": sh.symbol(".extern")}
         I.call(metacommand_fn(I, ".extern"), [st, sh.symbol("all")], {})
         flag = st["extern_all"]
-        early = comp.fields["extern_symbols_mapping"].fields["container"].get("early")
+        early = _table(comp.fields["extern_symbols_mapping"]).get("early")
         lab = sh.mk(I.module_get("types", "Label"), None, None, "x", False)
         I.call_method(comp, "compile_label", [lab, 0, st])
         lab2 = sh.mk(I.module_get("types", "Label"), None, None, "late", False)
         I.call_method(comp, "compile_label", [lab2, 0, st])
-        return flag, early, comp.fields["extern_symbols_mapping"].fields["container"].get("late")
+        return flag, early, _table(comp.fields["extern_symbols_mapping"]).get("late")
     ps = I.explore(thunk2)
     where = "metacommands::extern"
     ck.instance(("extern-all",), {"outcome": ps[0].kind, "value": repr(ps[0].value)[:160]}, fn=where)
